@@ -890,6 +890,9 @@ class Interp:
         if op in ("is", "is not") and b == NONE and a[0] in ("const", "tuple", "list", "dict", "bin", "call") and a != NONE:
             if a[0] != "call":
                 return C(op == "is not")
+        if is_const(a) and not is_const(b) and op in ("==", "!=", "<", "<=", ">", ">=") and a != NONE:
+            # canonical orientation: the literal on the right (1 == n  ->  n == 1, 5 < n  ->  n > 5)
+            return ("cmp", {"==": "==", "!=": "!=", "<": ">", "<=": ">=", ">": "<", ">=": "<="}[op], b, a)
         return ("cmp", op, a, b)
 
     def e_IfExp(self, n: ast.IfExp) -> Term:
